@@ -159,7 +159,7 @@ class DiscoveryIntroductionRequestPayload(IntroductionRequestPayload):
 
     @classmethod
     def from_unpack_list(cls: type[DiscoveryIntroductionRequestPayload],  # type: ignore[override]  # noqa: PLR0913
-                         introduce_to: bytes,
+                         introduce_to: tuple[bytes, bytes],
                          destination_address: Address, source_lan_address: Address,
                          source_wan_address: Address, connection_type_0: int, connection_type_1: int,
                          dflag0: bool, dflag1: bool, dflag2: bool, tunnel: bool, _: bool, advice: bool,  # noqa: ARG003
@@ -167,7 +167,7 @@ class DiscoveryIntroductionRequestPayload(IntroductionRequestPayload):
         """
         Unpack a DiscoveryIntroductionRequestPayload.
         """
-        return DiscoveryIntroductionRequestPayload(introduce_to[1:],
+        return DiscoveryIntroductionRequestPayload(introduce_to[1],
                                                    destination_address,
                                                    source_lan_address,
                                                    source_wan_address,
